@@ -55,7 +55,6 @@ theorem score_denote {S : Services α} (hS : S.Lawful) (ten : α) (thr : Nat →
         · rename_i A B C1 hM
           have hA := scoreMatrix_fst S K other wp hM
           have r1 := normalize_reparam hS K none false .two none hA
-          simp only at h
           split at h
           · cases h
           · split at h
@@ -73,8 +72,7 @@ theorem score_denote {S : Services α} (hS : S.Lawful) (ten : α) (thr : Nat →
                 obtain ⟨rfl, hp, hnn⟩ := asPerm_some' hq
                 have r2 := permuteComps_reparam A _ hp
                 have r := r1.trans r2
-                rw [r1.ncomp] at hp
-                exact ⟨hp, hnn, r.ncomp, r.shape, r.get⟩
+                exact ⟨by rw [← r1.ncomp]; exact hp, hnn, r.ncomp, r.shape, r.get⟩
               · cases hArr
             · cases h
 
